@@ -25,6 +25,12 @@
 #define TAINT(p, n) VALGRIND_MAKE_MEM_UNDEFINED((p), (n))
 #define PUBLIC(p, n) VALGRIND_MAKE_MEM_DEFINED((p), (n))
 
+/* Every report in the valgrind log is attributed to the operation in progress: "plain" operations have no public
+ * outcome (any tainted branch/address is a violation); "outcome" operations (decrypt, verify) end in a public
+ * accept/reject result, on which the property allows control flow to depend - a tainted branch reported inside them
+ * goes to the outcome arbiter (see c11.py) instead of being judged directly. */
+static void op_mark(const char *fam, const char *cls) { VALGRIND_PRINTF("VFOP %llu %s %s\n", (unsigned long long)vf_case, fam, cls); }
+
 static rng_t *R;
 static long tainted_bytes = 0, ops = 0;
 /* --arg secrets=<file>: no taint marking; every secret byte (keys, plaintext, fed entropy, getrandom output) is taken
@@ -35,10 +41,16 @@ static void sec_take(uint8_t *p, size_t n) { for (size_t i = 0; i < n; ++i) { p[
 
 /* system entropy: deterministic bytes, marked secret */
 static uint64_t gr_state = 99;
+static uint8_t arb_stage[8192]; static size_t arb_stage_pos; static int arb_stage_on;
+static void arb_stage_refill(void) { sec_take(arb_stage, sizeof(arb_stage)); arb_stage_pos = 0; }
 ssize_t getrandom(void *buf, size_t n, unsigned flags)
 {
     unsigned char *p = (unsigned char *)buf;
     (void)flags;
+    if (arb_stage_on) {      /* arbiter: every segment reads its entropy from the same addresses (refilled between segments) */
+        for (size_t i = 0; i < n; ++i) { p[i] = arb_stage[arb_stage_pos]; arb_stage_pos = (arb_stage_pos + 1) % sizeof(arb_stage); }
+        return (ssize_t)n;
+    }
     if (sec_pool) { sec_take(p, n); return (ssize_t)n; }
     for (size_t i = 0; i < n; ++i) { uint64_t x = gr_state++; p[i] = (unsigned char)(vf_splitmix(&x) >> 23); }
     TAINT(buf, n);
@@ -84,9 +96,11 @@ static void aead_family(const char *name, enc_fn enc, dec_fn dec, unsigned klen,
     size_t clen = 0, mlen2 = 0;
     int r;
     vf_progress("case=%llu ct %s adlen=%zu mlen=%zu", (unsigned long long)vf_case, name, adlen, mlen);
+    op_mark(name, "plain");
     enc(c, &clen, m, mlen, ad, adlen, n, k);
     /* the ciphertext is public once sent: declassify a copy for the receiver side */
     memcpy(c2, c, mlen + 16); PUBLIC(c2, mlen + 16);
+    op_mark(name, "outcome");
     r = dec(m2, &mlen2, c2, mlen + 16, ad, adlen, n, k);
     PUBLIC(&r, sizeof(r));
     if (r < 0) vf_count("ct_unexpected_reject", 1);
@@ -99,6 +113,7 @@ static void aead_family(const char *name, enc_fn enc, dec_fn dec, unsigned klen,
         c2[mlen + at[pos]] ^= 0x01;
     }
     if (mlen) { c2[0] ^= 0x80; r = dec(m2, &mlen2, c2, mlen + 16, ad, adlen, n, k); PUBLIC(&r, sizeof(r)); }
+    op_mark(name, "plain");
     ops += 6;
     vf_distinct("ct|%s|ad%zu|m%zu", name, adlen, mlen);
     gfree(k); gfree(n); gfree(ad); gfree(m); gfree(c); gfree(m2); gfree(c2);
@@ -127,6 +142,68 @@ static int isap_dec_##P(unsigned char *m, size_t *mlen, const unsigned char *c, 
 { KT pk; int r; P##_isap_aead_init(&pk, k); r = P##_isap_aead_decrypt(m, mlen, c, clen, ad, adlen, n, &pk); P##_isap_aead_free(&pk); return r; }
 ISAP(ascon128, ascon128_isap_aead_key_t) ISAP(ascon128a, ascon128a_isap_aead_key_t) ISAP(ascon80pq, ascon80pq_isap_aead_key_t)
 
+/* ---------------------------------------------------------------- outcome arbiter (--arg arb=<secrets file>, --only <case>)
+ * Runs under valgrind lackey.  One process executes the decrypt / verify operation of ONE public shape many times:
+ * 3 secret sets x {genuine, tag wrong in one bit of byte p for p = 0..15, all tag bytes wrong, first+last byte wrong}.
+ * Each execution is bracketed by marker stores; c11.py cuts the instruction + data address trace into these segments and
+ * requires all segments with the same accept/reject outcome to be identical.  That is the property's own criterion:
+ * the trace may depend on the outcome, not on the secrets and not on where the tag differs. */
+static volatile uint64_t vf_seg_begin, vf_seg_end;
+#define SEG_BEGIN() do { for (int i_ = 0; i_ < 12; ++i_) vf_seg_begin = 1; } while (0)
+#define SEG_END() do { for (int i_ = 0; i_ < 12; ++i_) vf_seg_end = 1; } while (0)
+#define ARB_VARIANTS 19
+static void arb_tamper(uint8_t *tag, int v)
+{
+    if (v >= 1 && v <= 16) tag[v - 1] ^= (uint8_t)(1u << ((v * 3) & 7));
+    else if (v == 17) for (int i = 0; i < 16; ++i) tag[i] ^= 0xff;
+    else if (v == 18) { tag[0] ^= 0x01; tag[15] ^= 0x80; }
+}
+static void aead_arb(const char *name, enc_fn enc, dec_fn dec, unsigned klen, size_t adlen, size_t mlen)
+{
+    static uint8_t k[20], n[16], ad[64], m[64], c[80], c2[80], m2[64];
+    size_t clen = 0, mlen2 = 0;
+    int seg = 0, r;
+    rng_bytes(R, n, 16); rng_bytes(R, ad, sizeof(ad));
+    printf("A\t%p\t%p\t%s\n", (void *)&vf_seg_begin, (void *)&vf_seg_end, name);
+    for (int set = 0; set < 3; ++set) {
+        sec_take(k, klen); sec_take(m, mlen);
+        enc(c, &clen, m, mlen, ad, adlen, n, k);
+        if (set == 0) {     /* warm-up of both outcomes: lazy symbol binding, first-touch effects */
+            memcpy(c2, c, mlen + 16); dec(m2, &mlen2, c2, mlen + 16, ad, adlen, n, k);
+            c2[mlen + 3] ^= 4; dec(m2, &mlen2, c2, mlen + 16, ad, adlen, n, k);
+        }
+        for (int v = 0; v < ARB_VARIANTS; ++v) {
+            memcpy(c2, c, mlen + 16);
+            arb_tamper(c2 + mlen, v);
+            arb_stage_refill();
+            SEG_BEGIN();
+            r = dec(m2, &mlen2, c2, mlen + 16, ad, adlen, n, k);
+            SEG_END();
+            printf("O\t%d\t%d\t%d\t%d\n", seg++, r < 0 ? 0 : 1, set, v);
+        }
+    }
+}
+static void mac_arb(size_t inlen)
+{
+    static uint8_t k[16], in[128], tag[16], t2[16];
+    int seg = 0, r;
+    printf("A\t%p\t%p\t%s\n", (void *)&vf_seg_begin, (void *)&vf_seg_end, "prf-mac");
+    for (int set = 0; set < 3; ++set) {
+        sec_take(k, 16); sec_take(in, inlen);
+        ascon_mac(tag, in, inlen, k);
+        if (set == 0) { memcpy(t2, tag, 16); ascon_mac_verify(t2, in, inlen, k); t2[5] ^= 2; ascon_mac_verify(t2, in, inlen, k); }
+        for (int v = 0; v < ARB_VARIANTS; ++v) {
+            memcpy(t2, tag, 16);
+            arb_tamper(t2, v);
+            arb_stage_refill();
+            SEG_BEGIN();
+            r = ascon_mac_verify(t2, in, inlen, k);
+            SEG_END();
+            printf("O\t%d\t%d\t%d\t%d\n", seg++, r < 0 ? 0 : 1, set, v);
+        }
+    }
+}
+
 static const struct { const char *name; enc_fn enc; dec_fn dec; unsigned klen, rate; } FAM[] = {
     {"ascon128", ascon128_aead_encrypt, ascon128_aead_decrypt, 16, 8}, {"ascon128a", ascon128a_aead_encrypt, ascon128a_aead_decrypt, 16, 16},
     {"ascon80pq", ascon80pq_aead_encrypt, ascon80pq_aead_decrypt, 20, 8},
@@ -142,11 +219,13 @@ static void mac_family(size_t inlen, size_t outlen)
     uint8_t *k = secret(16), *in = rng_below(R, 2) ? secret(inlen) : pub(inlen), *out = outbuf(outlen > 16 ? outlen : 16), *tag = outbuf(16);
     int r;
     vf_progress("case=%llu ct prf/mac inlen=%zu outlen=%zu", (unsigned long long)vf_case, inlen, outlen);
+    op_mark("prf-mac", "plain");
     ascon_prf(out, outlen, in, inlen, k);
     ascon_prf_fixed(out, outlen, in, inlen, k);
     if (inlen <= 16) { r = ascon_prf_short(out, outlen > 16 ? 16 : outlen, in, inlen, k); PUBLIC(&r, sizeof(r)); }
     ascon_mac(tag, in, inlen, k);
     PUBLIC(tag, 16);                               /* the tag travels in the clear */
+    op_mark("prf-mac", "outcome");
     r = ascon_mac_verify(tag, in, inlen, k); PUBLIC(&r, sizeof(r));
     if (r != 0) vf_count("ct_unexpected_reject", 1);
     for (unsigned pos = 0; pos < 16; pos += 5) {
@@ -155,6 +234,7 @@ static void mac_family(size_t inlen, size_t outlen)
         if (r == 0) vf_count("ct_unexpected_accept", 1);
         tag[pos] ^= 0x20;
     }
+    op_mark("prf-mac", "plain");
     {   ascon_prf_state_t st; size_t h = inlen / 2;
         ascon_prf_init(&st, k); ascon_prf_absorb(&st, in, h); ascon_prf_absorb(&st, in + h, inlen - h); ascon_prf_squeeze(&st, out, outlen / 2); ascon_prf_squeeze(&st, out + outlen / 2, outlen - outlen / 2); ascon_prf_free(&st); }
     ops += 9;
@@ -166,6 +246,7 @@ static void keyed_hash_family(size_t keylen, size_t inlen, size_t outlen)
 {
     uint8_t *k = secret(keylen), *in = rng_below(R, 2) ? secret(inlen) : pub(inlen), *cu = pub(10), *salt = pub(9), *out = outbuf(outlen > 64 ? outlen : 64);
     vf_progress("case=%llu ct hmac/kmac/kdf keylen=%zu inlen=%zu outlen=%zu", (unsigned long long)vf_case, keylen, inlen, outlen);
+    op_mark("keyed-hash", "plain");
     ascon_hmac(out, k, keylen, in, inlen);
     ascon_hmaca(out, k, keylen, in, inlen);
     {   ascon_hmac_state_t st; ascon_hmac_init(&st, k, keylen); ascon_hmac_update(&st, in, inlen); ascon_hmac_finalize(&st, k, keylen, out); ascon_hmac_free(&st); }
@@ -200,6 +281,7 @@ static void prng_family(size_t n)
     ascon_random_state_t st;
     uint8_t *out = outbuf(n + 32), *feed = secret(n);
     vf_progress("case=%llu ct prng n=%zu", (unsigned long long)vf_case, n);
+    op_mark("prng", "plain");
     ascon_random(out, n);
     ascon_random_init(&st);
     ascon_random_fetch(&st, out, n);
@@ -223,7 +305,7 @@ int main(int argc, char **argv)
     vf_args_t a;
     rng_t r;
     uint64_t idx = 0;
-    int reps;
+    int reps, arb = 0;
     vf_prop = "C11";
     vf_parse_args(argc, argv, &a);
     R = &r;
@@ -238,9 +320,10 @@ int main(int argc, char **argv)
         vf_finish();
         return 0;
     }
-    if (a.arg && !strncmp(a.arg, "secrets=", 8)) {
-        FILE *f = fopen(a.arg + 8, "rb");
-        if (!f) { fprintf(stderr, "HARNESS cannot open %s\n", a.arg + 8); return 2; }
+    if (a.arg && !strncmp(a.arg, "arb=", 4)) arb = arb_stage_on = 1;
+    if (a.arg && (!strncmp(a.arg, "secrets=", 8) || arb)) {
+        FILE *f = fopen(a.arg + (arb ? 4 : 8), "rb");
+        if (!f) { fprintf(stderr, "HARNESS cannot open %s\n", a.arg + (arb ? 4 : 8)); return 2; }
         sec_pool = (uint8_t *)malloc(1 << 16);
         sec_len = fread(sec_pool, 1, 1 << 16, f);
         fclose(f);
@@ -256,6 +339,7 @@ int main(int argc, char **argv)
                     if (!vf_mine(&a, idx)) continue;
                     rng_seed(&r, a.seed ^ 0xc7, idx + (uint64_t)rep * 100000);
                     vf_case_begin(idx);
+                    if (arb) { aead_arb(FAM[f].name, FAM[f].enc, FAM[f].dec, FAM[f].klen, (FAM[f].rate == 16 ? GRID16 : GRID8)[i], (FAM[f].rate == 16 ? GRID16 : GRID8)[j]); continue; }
                     aead_family(FAM[f].name, FAM[f].enc, FAM[f].dec, FAM[f].klen, (FAM[f].rate == 16 ? GRID16 : GRID8)[i], (FAM[f].rate == 16 ? GRID16 : GRID8)[j]);
                     vf_count("cases", 1);
                 }
@@ -265,6 +349,7 @@ int main(int argc, char **argv)
                 if (!vf_mine(&a, idx)) continue;
                 rng_seed(&r, a.seed ^ 0xc8, idx + (uint64_t)rep * 100000);
                 vf_case_begin(idx);
+                if (arb) { mac_arb(INL[i]); continue; }
                 mac_family(INL[i], OUTL[j]);
                 keyed_hash_family((size_t[]){0, 1, 16, 31, 32, 63, 64, 65, 100, 130}[i], INL[j], OUTL[(i + j) % 10]);
                 vf_count("cases", 2);
@@ -273,6 +358,7 @@ int main(int argc, char **argv)
             if (!vf_mine(&a, idx)) continue;
             rng_seed(&r, a.seed ^ 0xc9, idx + (uint64_t)rep * 100000);
             vf_case_begin(idx);
+            if (arb) continue;
             prng_family((size_t[]){0, 1, 7, 8, 9, 32, 100, 300}[i]);
             vf_count("cases", 1);
         }
